@@ -261,14 +261,18 @@ def bnd_cuts(tier, seed):
                 suspects.append((j, bad))
     # a failing scenario counts only if it also fails when run alone (twice): the library's busy-wait loops make timing
     # under parallel load unreliable, and a flaky alarm is worse than none
+    confirmed_per_clause = {}
     for j, bad in suspects:
+        if all(confirmed_per_clause.get(c, 0) >= 3 for c in bad):
+            continue        # three confirmed witnesses per clause are enough (each confirmation costs two more fresh processes)
         again = [scenario_in_fresh_process(j), scenario_in_fresh_process(j)]
         common = set(bad) & set(again[0]) & set(again[1])
         for clause in sorted(common):
+            confirmed_per_clause[clause] = confirmed_per_clause.get(clause, 0) + 1
             fails.add(clause, {"mode": j[0], "selected": j[1], "cut_at_byte": j[2], "ending": j[3], "confirmed_in_fresh_process": 2}, again[1][clause])
         if not common:
             flaky.append({"scenario": list(j), "first": bad})
     return {"evaluations": n_eval, "distinct": len(distinct), "failures": list(fails),
             "scope": f"{len(cuts)} cut offsets of a 3-frame stream x {{not selected, selected}} x {{passive, active}} x {{peer close + reconnect, local disable}} on loopback sockets with the real TCP classes",
-            "not_reproduced_alone": flaky[:10],
+            "not_reproduced_alone": flaky[:10], "self_confirmed": True,
             "rule": "distinct = (mode, session state, cut offset, ending)", "samples": [{"mode": "passive", "selected": True, "cut_at_byte": 5, "ending": "peer-close"}]}
